@@ -651,18 +651,35 @@ func (x *Function) GetErrors() (errMessage string) {
 	}
 
 	for _, fp := range x.FunctionParameters {
-		if fp.Error != nil && *fp.Error != "" {
+		partErrors := ""
+		if fp.Part != nil && fp.Part.HasErrors() {
+			partErrors = errorsOfArgument(fp.Part)
+		}
+
+		// the error of a parameter whose path or group argument failed is a copy of that argument's
+		// error: it is listed once, with the argument
+		if fp.Error != nil && *fp.Error != "" && !strings.HasPrefix(partErrors, *fp.Error) {
 			errMessages = append(errMessages, *fp.Error)
 		}
 
-		if fp.Part != nil && fp.Part.HasErrors() {
-			if errs := fp.Part.GetErrors(); errs != "" {
-				errMessages = append(errMessages, errs)
-			}
+		if partErrors != "" {
+			errMessages = append(errMessages, partErrors)
 		}
 	}
 
 	return strings.Join(errMessages, "; ")
+}
+
+// errorsOfArgument is what a path or group given as a function argument contributes to the error of the
+// call: for a group its own error, which already lists what was found in its members (GetErrors would
+// list the members a second time, and the text would triple with every call nested in a group nested in
+// a call).
+func errorsOfArgument(part CanBeAPart) string {
+	if group, isGroup := part.(*LogicalOperation); isGroup && group.Error != nil && *group.Error != "" {
+		return *group.Error
+	}
+
+	return part.GetErrors()
 }
 
 func (x *Function) ReturnType() InputOrOutput {
